@@ -3,6 +3,8 @@ pub mod c01;
 pub mod c02;
 pub mod c03;
 pub mod c04;
+pub mod c05;
+pub mod cryptgen;
 pub mod c07;
 pub mod c08;
 pub mod c09;
@@ -31,6 +33,7 @@ pub fn registry(id: &str) -> Option<(RunFn, ReplayFn)> {
         "C02" => Some((c02::run, c02::replay)),
         "C03" => Some((c03::run, c03::replay)),
         "C04" => Some((c04::run, c04::replay)),
+        "C05" => Some((c05::run, c05::replay)),
         "C07" => Some((c07::run, c07::replay)),
         "C08" => Some((c08::run, c08::replay)),
         "C09" => Some((c09::run, c09::replay)),
